@@ -39,7 +39,7 @@ Lemma nth_error_replace_nth {X} (l : list X) j x k :
   nth_error (replace_nth j x l) k = if k =? j then (if j <? length l then Some x else None) else nth_error l k.
 Proof.
   revert j k; induction l as [|h t IH]; intros j k.
-  - cbn [replace_nth length]. destruct (k =? j); [|destruct k; reflexivity]. destruct k; reflexivity.
+  - destruct j; cbn [replace_nth length]; (destruct (k =? _); destruct k; reflexivity).
   - destruct j as [|j]; destruct k as [|k]; cbn [replace_nth nth_error length]; try reflexivity.
     rewrite IH. cbn [Nat.eqb]. destruct (k =? j); [|reflexivity].
     change (S j <? S (length t)) with (j <? length t). reflexivity.
@@ -47,8 +47,7 @@ Qed.
 
 Lemma Forall_replace_nth {X} (P : X -> Prop) (l : list X) j x : Forall P l -> P x -> Forall P (replace_nth j x l).
 Proof.
-  intros HF Hx. revert j; induction HF as [|h t Hh Ht IH]; intro j; [constructor|].
-  destruct j; cbn [replace_nth]; constructor; auto.
+  intros HF Hx. revert j; induction HF as [|h t Hh Ht IH]; intro j; destruct j; cbn [replace_nth]; constructor; auto.
 Qed.
 
 (* ------------------------------------------------------------------ invariants *)
